@@ -10,7 +10,7 @@ def targets(cases_dir, dedupe=False, stride=1, offset=0, only=None):
     for c in cases:
         if only and only not in c["Id"]:
             continue
-        if c["Model"] not in ("ASA", "IOS", "Linux"):
+        if c["Model"] not in ("ASA", "IOS", "Linux", "NSX", "PAN-OS"):
             continue
         contents = {}
         huge = False
@@ -27,7 +27,7 @@ def targets(cases_dir, dedupe=False, stride=1, offset=0, only=None):
             if f not in contents:
                 continue
             lines = contents[f].rstrip("\n").split("\n")
-            if len(lines) > 60:
+            if len(lines) > (120 if c["Model"] in ("NSX", "PAN-OS") else 60):
                 continue
             for i, l in enumerate(lines):
                 if not l.strip():
@@ -35,6 +35,9 @@ def targets(cases_dir, dedupe=False, stride=1, offset=0, only=None):
                 if dedupe:
                     w = l.split()
                     key = (c["Model"], f, l[0] == " ", " ".join(w[:3]), len(w))
+                    if c["Model"] in ("NSX", "PAN-OS"):
+                        # JSON / XML: one representative per distinct line text
+                        key = (c["Model"], f, l.strip())
                     if key in seen:
                         continue
                     seen.add(key)
